@@ -340,6 +340,7 @@ impl Sys {
         let mut out = vec![];
         let before = self.snap();
         let mut tx: Option<Vec<u8>> = None;
+        let mut tx_freq: Option<u32> = None;
         let mut not_joined = false;
         if let Some(nb) = &mut self.nb {
             for m in nb.apply(&Ev::Cycle { confirmed: false, port: 1, len: 2, rx1: None, rx2: None }) {
@@ -350,8 +351,9 @@ impl Sys {
                     not_joined = true;
                 }
                 for op in &m.ops {
-                    if let RadioOp::Tx { bytes, .. } = op {
+                    if let RadioOp::Tx { bytes, rf, .. } = op {
                         tx = Some(bytes.clone());
+                        tx_freq = Some(rf.freq);
                     }
                 }
             }
@@ -365,9 +367,24 @@ impl Sys {
                 not_joined = true;
             }
             for op in &st.ops {
-                if let AOp::Tx { bytes, .. } = op {
+                if let AOp::Tx { bytes, rf, .. } = op {
                     tx = Some(bytes.clone());
+                    tx_freq = Some(rf.freq);
                 }
+            }
+        }
+        // the channel list the join installed is in force from the first uplink on (72-channel plans: the mask)
+        if let (VerifMacState::Joined(_), Some(f)) = (&before.state, tx_freq)
+            && rr::is_fixed(&self.region)
+            && let Some(ch) = rr::fixed_channel_of(&self.region, f)
+        {
+            let m = &before.region.channel_mask;
+            // (judged only when the mask leaves a channel for the data rate in force: what the stack falls back to
+            // otherwise is not the join's business)
+            let bw500 = before.data_rate == if self.region == "US915" { 4 } else { 6 };
+            let usable = if bw500 { m[8] != 0 } else { m[..8].iter().any(|b| *b != 0) };
+            if m[ch / 8] & (1 << (ch % 8)) == 0 && usable {
+                out.push(V { sig: "C11|first-uplink-on-channel-the-join-disabled".into(), what: format!("{}: first uplink of the session on channel {ch} ({f} Hz), mask in force {}", self.region, hex(&m[..])) });
             }
         }
         match before.state {
@@ -496,10 +513,15 @@ pub struct SweepCase {
     pub jn: u32,
     pub na: u32,
     pub rx2: bool,
+    /// join bias of the 72-channel plans: (sub-band, retries)
+    #[serde(default)]
+    pub bias: Option<(u8, usize)>,
 }
 
 fn eval_sweep(c: &SweepCase) -> Vec<(String, String)> {
-    let mut s = Sys::new(&c.front, &DevCfg::otaa(&c.region));
+    let mut dcfg = DevCfg::otaa(&c.region);
+    dcfg.bias = c.bias;
+    let mut s = Sys::new(&c.front, &dcfg);
     let mut out = vec![];
     if (1..=3).contains(&c.pre) {
         s.step(&JEv::Join { outcome: 0, nonce: 7, spec: 0 });
@@ -580,7 +602,13 @@ pub fn run(tier: Tier, replay: Option<&str>) {
                         2 => (0x8001, 0x010203, 0x000013),
                         _ => (1, 1, 0x800000),
                     };
-                    cases.push(SweepCase { front: front.into(), region: region.to_string(), pre, spec: sp.clone(), nonce, jn, na, rx2: i % 3 == 0 });
+                    cases.push(SweepCase { front: front.into(), region: region.to_string(), pre, spec: sp.clone(), nonce, jn, na, rx2: i % 3 == 0, bias: None });
+                    // the 72-channel plans under a join bias: the accept's channel mask may disable the sub-band joined on
+                    if rr::is_fixed(region) && pre <= 1 && sp.cflist.as_ref().map(|c| c[15] == 1).unwrap_or(i % 16 == 0) {
+                        for bias in [(2u8, 1usize), (2, 8), (1, 1), (8, 2)] {
+                            cases.push(SweepCase { front: front.into(), region: region.to_string(), pre, spec: sp.clone(), nonce, jn, na, rx2: i % 3 == 0, bias: Some(bias) });
+                        }
+                    }
                 }
             }
             cases.par_iter().for_each(|c| {
@@ -652,7 +680,7 @@ pub fn run(tier: Tier, replay: Option<&str>) {
         "transitions": transitions + sweep.load(Ordering::Relaxed),
         "traces_validated_against_impl": transitions + sweep.load(Ordering::Relaxed),
         "samples": [
-            serde_json::to_value(SweepCase { front: "nb".into(), region: "EU868".into(), pre: 2, spec: JaSpec { dl_settings: 0x5F, rx_delay: 0, cflist: None }, nonce: 0xFFFF, jn: 0xFFFFFF, na: 0x13, rx2: true }).unwrap(),
+            serde_json::to_value(SweepCase { front: "nb".into(), region: "EU868".into(), pre: 2, spec: JaSpec { dl_settings: 0x5F, rx_delay: 0, cflist: None }, nonce: 0xFFFF, jn: 0xFFFFFF, na: 0x13, rx2: true, bias: None }).unwrap(),
             {"cfg": serde_json::to_value(&runs[0]).unwrap(), "history": [serde_json::to_value(JEv::Join { outcome: 3, nonce: 0, spec: 0 }).unwrap(), serde_json::to_value(JEv::Join { outcome: 2, nonce: 0xFFFF, spec: 1 }).unwrap(), serde_json::to_value(JEv::Up).unwrap()]},
         ],
         "evaluations": ctx.evals(),
